@@ -95,7 +95,7 @@ def rw2(F, R):
             eq_ok = False
             if cb is not None:
                 env = {("upvar", i): (b.expr_local(u[1], u[2]) if u[0] == "addr" else u) for i, u in enumerate(cl[2])}
-                summ = pred_summary(cb)
+                summ = pred_summary(cb) if not cb.locals[0]["ty"].startswith("std::option::Option") else (some_summary(cb) or [])
                 if len(summ) == 1:
                     for f in summ[0]:
                         if f[0] == "cmp" and f[1] == "==":
